@@ -32,6 +32,9 @@ pub enum Rx {
     Dot,
     Class { neg: bool, items: Vec<ClassItem> },
     Perl(char),
+    /// a class written out literally (set operations, ASCII and Unicode classes, nesting) with
+    /// some known members for witness strings
+    Raw { text: String, members: Vec<char> },
     Cat(Vec<Rx>),
     Alt(Vec<Rx>),
     Rep(Box<Rx>, RepKind),
@@ -70,7 +73,7 @@ impl Rx {
     pub fn nullable(&self) -> bool {
         match self {
             Rx::Empty => true,
-            Rx::Lit(_) | Rx::Dot | Rx::Class { .. } | Rx::Perl(_) => false,
+            Rx::Lit(_) | Rx::Dot | Rx::Class { .. } | Rx::Perl(_) | Rx::Raw { .. } => false,
             Rx::Cat(v) => v.iter().all(|r| r.nullable()),
             Rx::Alt(v) => v.iter().any(|r| r.nullable()),
             Rx::Rep(r, k) => match k {
@@ -87,7 +90,7 @@ impl Rx {
     fn is_atom(&self) -> bool {
         matches!(
             self,
-            Rx::Lit(_) | Rx::Dot | Rx::Class { .. } | Rx::Perl(_) | Rx::Group(..)
+            Rx::Lit(_) | Rx::Dot | Rx::Class { .. } | Rx::Perl(_) | Rx::Raw { .. } | Rx::Group(..)
         )
     }
 
@@ -102,6 +105,7 @@ impl Rx {
             Rx::Empty => {}
             Rx::Lit(c) => esc_lit(*c, out),
             Rx::Dot => out.push('.'),
+            Rx::Raw { text, .. } => out.push_str(text),
             Rx::Perl(c) => {
                 out.push('\\');
                 out.push(*c);
@@ -185,6 +189,7 @@ impl Rx {
                 out.push(if cands.is_empty() { 'a' } else { *rng.pick(&cands) });
             }
             Rx::Perl(c) => out.push(perl_witness(*c, rng)),
+            Rx::Raw { members, .. } => out.push(if members.is_empty() { 'a' } else { *rng.pick(members) }),
             Rx::Class { neg, items } => {
                 if !*neg {
                     match rng.pick(items) {
@@ -350,7 +355,31 @@ pub fn gen_alphabet(rng: &mut Rng, newline_rich: bool) -> Alphabet {
 // Regex generation
 // ---------------------------------------------------------------------------------------------
 
+/// Class shapes beyond simple brackets: set operations, nesting, ASCII and Unicode classes.
+const RAW_CLASSES: &[(&str, &[char])] = &[
+    ("[a-c&&[^b]]", &['a', 'c']),
+    ("[\\w--\\d]", &['a', 'x', '_']),
+    ("[a-c~~b-x]", &['a', 'x']),
+    ("[[a-c][x-z]]", &['a', 'b', 'x']),
+    ("[^[a-c]0]", &['1', '-', 'x']),
+    ("[[:alpha:]]", &['a', 'b', 'x']),
+    ("[[:^digit:]]", &['a', '-', ' ']),
+    ("[[:space:]x]", &[' ', 'x', '\n']),
+    ("\\pL", &['a', '\u{e9}', 'x']),
+    ("\\p{Alphabetic}", &['a', '\u{e9}']),
+    ("\\PN", &['a', '-']),
+    ("\\pN", &['0', '1']),
+    ("[\\pL&&[^a]]", &['b', '\u{e9}']),
+    ("[\\s--\\n]", &[' ', '\t']),
+    ("[a\\-c]", &['a', '-', 'c']),
+    ("[\\]\\[]", &[']', '[']),
+];
+
 fn gen_class(rng: &mut Rng, al: &Alphabet) -> Rx {
+    if rng.chance(1, 7) {
+        let (t, m) = rng.pick(RAW_CLASSES);
+        return Rx::Raw { text: t.to_string(), members: m.to_vec() };
+    }
     let neg = rng.chance(1, 4);
     let n = rng.range(1, 3);
     let mut items = Vec::new();
